@@ -59,10 +59,23 @@ func (o c9Op) String() string {
 		return fmt.Sprintf("h%d.%s(%d)", o.A, o.K, o.X)
 	case "top", "skip", "windows":
 		return fmt.Sprintf("h%d.%s(%d)", o.A, o.K, o.N)
+	case "obs":
+		return fmt.Sprintf("observe[%s](h%d,h%d,%d)", o.Key, o.A, o.B, o.X)
+	case "constcontains":
+		if o.N == 3 {
+			return fmt.Sprintf("h%d ~ const h%d", o.B, o.A)
+		}
+		return fmt.Sprintf("const h%d ~ h%d", o.A, o.B)
+	case "mobs":
+		return fmt.Sprintf("observe[%s](m%d,m%d,%s,%d)", o.Ks, o.A, o.B, o.Key, o.X)
+	case "mminmax":
+		return fmt.Sprintf("%v.minMax()", o.Xs)
 	case "mlit", "mlitrt":
 		return fmt.Sprintf("%s{%s:%v}", o.K, o.Ks, o.Xs)
 	case "put", "constput", "replace":
 		return fmt.Sprintf("m%d.%s(%s,%d)", o.A, o.K, o.Key, o.X)
+	case "mergelit":
+		return fmt.Sprintf("m%d+{%s:%d}", o.A, o.Key, o.X)
 	case "merge":
 		return fmt.Sprintf("m%d+m%d", o.A, o.B)
 	case "mapv", "maccept":
@@ -322,6 +335,155 @@ func abs(x int) int {
 	return x
 }
 
+// an observer: an expression over existing handles (l, m lists / a, b maps) whose result is thrown away
+type c9Observer struct {
+	Name    string
+	Exp     string
+	Binary  bool
+	Methods []string // the methods / operators of value.New() it exercises
+}
+
+var c9ListObservers = []c9Observer{
+	{"~ list-in-list", "l ~ m", true, []string{"~"}},
+	{"~ list-in-itself", "l ~ l", false, []string{"~"}},
+	{"~ scalar-in-list", "k ~ l", false, []string{"~"}},
+	{"=", "l = m", true, []string{"="}},
+	{"!=", "l != m", true, []string{"!="}},
+	{"+", "(l+m).string()", true, []string{"+"}},
+	{"accept", "l.accept(e->e<k).string()", false, []string{"accept"}},
+	{"map", "l.map(e->e+k).string()", false, []string{"map"}},
+	{"reduce", "l.reduce((x,y)->x+y)", false, []string{"reduce"}},
+	{"sum", "l.sum()", false, []string{"sum"}},
+	{"mean", "l.mean()", false, []string{"mean"}},
+	{"min", "l.min()", false, []string{"min"}},
+	{"max", "l.max()", false, []string{"max"}},
+	{"mapReduce", "l.mapReduce(0,(s,e)->s+e)", false, []string{"mapReduce"}},
+	{"minMax", "l.minMax(e->e).string()", false, []string{"minMax"}},
+	{"replaceList", "l.replaceList(x->x.size())", false, []string{"replaceList"}},
+	{"combine", "l.combine((x,y)->x+y).string()", false, []string{"combine"}},
+	{"combine3", "l.combine3((x,y,z)->x+y+z).string()", false, []string{"combine3"}},
+	{"combineN", "l.combineN(2,w->w.sum()).string()", false, []string{"combineN"}},
+	{"multiUse", "l.multiUse({s:x->x.size(),t:x->x.string()}).string()", false, []string{"multiUse"}},
+	{"indexWhere", "l.indexWhere(e->e=k)", false, []string{"indexWhere"}},
+	{"groupByString", "l.groupByString(e->\"\"+e).string()", false, []string{"groupByString"}},
+	{"groupByInt", "l.groupByInt(e->e).string()", false, []string{"groupByInt"}},
+	{"groupByEqual", "l.groupByEqual(e->e).string()", false, []string{"groupByEqual"}},
+	{"uniqueString", "l.uniqueString(e->\"\"+e).string()", false, []string{"uniqueString"}},
+	{"uniqueInt", "l.uniqueInt(e->e).string()", false, []string{"uniqueInt"}},
+	{"compact", "l.compact((x,y)->x=y).string()", false, []string{"compact"}},
+	{"cross", "l.cross(m,(x,y)->x+y).string()", true, []string{"cross"}},
+	{"merge", "l.merge(m,(x,y)->x<y).string()", true, []string{"merge"}},
+	{"order", "l.order(e->e).string()", false, []string{"order"}},
+	{"orderRev", "l.orderRev(e->e).string()", false, []string{"orderRev"}},
+	{"orderLess", "l.orderLess((x,y)->x<y).string()", false, []string{"orderLess"}},
+	{"reverse", "l.reverse().string()", false, []string{"reverse"}},
+	{"iir", "l.iir(e->e,(i,o)->o+i).string()", false, []string{"iir"}},
+	{"iirCombine", "l.iirCombine(e->e,(i0,i1,o)->o+i1).string()", false, []string{"iirCombine"}},
+	{"iirApply", "l.iirApply({initial:e->e, filter:(i,li,o)->o+i}).string()", false, []string{"iirApply"}},
+	{"visit", "l.visit(0,(s,e)->s+e)", false, []string{"visit"}},
+	{"fsm", "l.fsm((s,e)->goto(0)).string()", false, []string{"fsm"}},
+	{"top", "l.top(k).string()", false, []string{"top"}},
+	{"skip", "l.skip(k).string()", false, []string{"skip"}},
+	{"number", "l.number((i,e)->i+e).string()", false, []string{"number"}},
+	{"present", "l.present(e->e=k)", false, []string{"present"}},
+	{"set", "l.set(0,k).string()", false, []string{"set"}},
+	{"size", "l.size()", false, []string{"size"}},
+	{"first", "l.first()", false, []string{"first"}},
+	{"single", "l.single()", false, []string{"single"}},
+	{"last", "l.last()", false, []string{"last"}},
+	{"eval", "l.eval().size()", false, []string{"eval"}},
+	{"string", "l.string()", false, []string{"string"}},
+	{"movingWindow", "l.movingWindow(e->e).string()", false, []string{"movingWindow"}},
+	{"movingWindowRemove", "l.movingWindowRemove(w->w.size()>2).string()", false, []string{"movingWindowRemove"}},
+	{"createInterpolation", "l.createInterpolation(e->e,e->e*2)(1)", false, []string{"createInterpolation"}},
+	{"linearReg", "l.linearReg(e->e,e->e*2).string()", false, []string{"linearReg"}},
+	{"binning", "l.binning(0,1,3,e->e,e->1).string()", false, []string{"binning"}},
+	{"binning2d", "l.binning2d(0,1,2,0,1,2,e->e,e->e,e->1).string()", false, []string{"binning2d"}},
+	{"collectBinning", "l.collectBinning().string()", false, []string{"collectBinning"}},
+	{"sprintf", "sprintf(\"%v\",l)", false, nil},
+	{"invoke", "((x,y,z)->x+y+z).invoke(l)", false, nil},
+	{"index", "l[k]", false, nil},
+	{"list-of-lists", "[l,m,l].string()", true, nil},
+}
+
+// `append` is the one list method that is NOT an observer (it may write into the spare capacity and caps the
+// receiver); it is a derivation of the history language (append, branch, constappend)
+var c9ListDerivationsOnly = []string{"append"}
+
+var c9MapObservers = []c9Observer{
+	{"~ key-in-map", "k ~ a", false, []string{"~"}},
+	{"=", "a = b", true, []string{"="}},
+	{"!=", "a != b", true, []string{"!="}},
+	{"+", "(a+b).string()", true, []string{"+"}},
+	{"accept", "a.accept((k,v)->v<d).string()", false, []string{"accept"}},
+	{"map", "a.map((k,v)->v+d).string()", false, []string{"map"}},
+	{"replaceMap", "a.replaceMap(x->x.size())", false, []string{"replaceMap"}},
+	{"list", "a.list().string()", false, []string{"list"}},
+	{"size", "a.size()", false, []string{"size"}},
+	{"string", "a.string()", false, []string{"string"}},
+	{"isAvail", "a.isAvail(k)", false, []string{"isAvail"}},
+	{"get", "a.get(k)", false, []string{"get"}},
+	{"put", "a.put(\"zz\",d).string()", false, []string{"put"}},
+	{"replace", "a.replace(x->{a:d}).string()", false, []string{"replace"}},
+	{"combine", "a.combine(b,(x,y)->x+y).string()", true, []string{"combine"}},
+	{"eval", "a.eval().string()", false, []string{"eval"}},
+	{"member", "a.a", false, nil},
+	{"map-in-list", "[a,b].string()", true, nil},
+}
+
+func c9FindObserver(tab []c9Observer, name string) (c9Observer, bool) {
+	for _, o := range tab {
+		if o.Name == name {
+			return o, true
+		}
+	}
+	return c9Observer{}, false
+}
+
+// methods of the list and map types of value.New() (read through the verif hook) that no observer and no
+// derivation of the history language exercises
+func c9UncoveredMethods() map[string][]string {
+	ar := value.VerifMethodArities(FG())
+	out := map[string][]string{}
+	check := func(label string, id int, tab []c9Observer, extra []string) {
+		have := map[string]bool{}
+		for _, o := range tab {
+			for _, m := range o.Methods {
+				have[m] = true
+			}
+		}
+		for _, m := range extra {
+			have[m] = true
+		}
+		var miss []string
+		for name := range ar[id] {
+			if !have[name] {
+				miss = append(miss, name)
+			}
+		}
+		sort.Strings(miss)
+		out[label] = miss
+	}
+	check("list", int(value.ListTypeId), c9ListObservers, c9ListDerivationsOnly)
+	check("map", int(value.MapTypeId), c9MapObservers, nil)
+	return out
+}
+
+// is `search` contained in `in` as a multiset (the meaning of list ~ list)
+func multisetContains(search, in []int) bool {
+	cnt := map[int]int{}
+	for _, x := range in {
+		cnt[x]++
+	}
+	for _, x := range search {
+		if cnt[x] == 0 {
+			return false
+		}
+		cnt[x]--
+	}
+	return true
+}
+
 // run one operation on the implementation; returns the model operations (Coq terms)
 func (e *c9Exec) apply(o c9Op) []string {
 	ok := func(i int) bool { return i >= 0 && i < len(e.hs) }
@@ -335,13 +497,15 @@ func (e *c9Exec) apply(o c9Op) []string {
 		if o.K == "litapp" {
 			txt = litText(o.Xs[:len(o.Xs)-1]) + ".append(" + strconv.Itoa(o.Xs[len(o.Xs)-1]) + ")"
 		}
-		f := c9Generate("let c="+txt+"; if x<0 then c else c.append(x)", "x")
-		v, err := f.Eval(value.Int(-1))
+		// ONE generated function per literal: x=-1 returns the constant, x=-2 / x=-3 use the constant as left /
+		// right operand of `~` (the constant is shared between evaluations), x>=0 appends to it
+		f := c9Generate("let c="+txt+"; if x=-1 then c else if x=-2 then c ~ l else if x=-3 then l ~ c else c.append(x)", "x", "l")
+		v, err := f.Eval(value.Int(-1), intList(nil))
 		if err != nil {
 			fatal("literal: %v", err)
 		}
 		l := v.(*value.List)
-		v2, _ := f.Eval(value.Int(-1))
+		v2, _ := f.Eval(value.Int(-1), intList(nil))
 		if v2.(*value.List) != l {
 			fatal("constant list is not shared between evaluations: the harness assumption about constant folding is wrong")
 		}
@@ -385,7 +549,7 @@ func (e *c9Exec) apply(o c9Op) []string {
 			if h.litFn == nil || o.X < 0 {
 				return nil
 			}
-			v, err := h.litFn.Eval(value.Int(o.X))
+			v, err := h.litFn.Eval(value.Int(o.X), intList(nil))
 			if err != nil {
 				fatal("constappend: %v", err)
 			}
@@ -569,6 +733,56 @@ func (e *c9Exec) apply(o c9Op) []string {
 		h.derived++
 		_, c1, _, _ := e.state(o.A)
 		ops = append(ops, fmt.Sprintf("OMovWin %d %d", o.A, c1))
+	case "obs", "constcontains":
+		// observer-style operations: existing handles are operands of a built-in whose result is irrelevant;
+		// no handle may change.  In the model: nothing but the materialisation (Eval) of operands, which is
+		// read off the hook (OForce for every handle whose itemsPresent flag flipped).
+		if !ok(o.A) || (o.B != 0 && !ok(o.B)) {
+			return nil
+		}
+		pre := make([]bool, len(e.hs))
+		for i := range e.hs {
+			_, _, pre[i], _ = e.state(i)
+		}
+		if o.K == "constcontains" {
+			h := e.hs[o.A]
+			if h.litFn == nil || (o.N != 2 && o.N != 3) {
+				return nil
+			}
+			v, err := h.litFn.Eval(value.Int(-o.N), e.hs[o.B].l)
+			if err != nil {
+				fatal("constcontains: %v", err)
+			}
+			want := multisetContains(e.pure[o.A], e.pure[o.B])
+			if o.N == 3 {
+				want = multisetContains(e.pure[o.B], e.pure[o.A])
+			}
+			if b, isB := v.(value.Bool); !isB || bool(b) != want {
+				e.failNow("observer-result:~", fmt.Sprintf("step %s: `~` with the constant list %v of a generated function and %v gives %v", o.String(), e.pure[o.A], e.pure[o.B], v), fmt.Sprint(want), fmt.Sprint(v))
+			}
+			e.cnt("list_observers", "const~")
+		} else {
+			ob, found := c9FindObserver(c9ListObservers, o.Key)
+			if !found {
+				return nil
+			}
+			b := o.A
+			if ob.Binary {
+				b = o.B
+			}
+			_, err := evalExpr(ob.Exp, []string{"l", "m", "k"}, e.hs[o.A].l, e.hs[b].l, value.Int(o.X))
+			e.cnt("list_observers", ob.Name)
+			if err != nil {
+				e.cnt("list_observer_errors", ob.Name)
+			}
+		}
+		ops = []string{}
+		for i := range e.hs {
+			_, c, p, _ := e.state(i)
+			if p && !pre[i] {
+				ops = append(ops, fmt.Sprintf("OForce %d %d", i, c))
+			}
+		}
 	default:
 		fatal("unknown list operation %q", o.K)
 	}
@@ -652,6 +866,9 @@ func c9RunList(h c9Hist, sum *Summary, count bool) (*c9Exec, string) {
 			}
 			if bad != "" {
 				sig := "changed-by:" + o.K
+				if o.K == "obs" {
+					sig += ":" + o.Key
+				}
 				what := fmt.Sprintf("handle %d (created by %s) was bound to %v; after step %d (%s) %s", i, e.hs[i].creator, want, si+1, o.String(), bad)
 				if i >= before {
 					sig = "wrong-at-creation:" + o.K
@@ -806,6 +1023,29 @@ func (e *c9MapExec) apply(o c9Op) []string {
 			c[o.Key] = o.X
 			e.add(m, c, o.K, nil)
 		}
+	case "mergelit":
+		// m + {key:x}: a fresh one-entry literal (a handle of its own) merged to the right of an existing map
+		if !ok(o.A) || !okKey(o.Key) {
+			return nil
+		}
+		if _, in := e.pure[o.A][o.Key]; in {
+			return nil
+		}
+		lit, good := e.evalMap("{"+o.Key+":v0}", []string{"v0"}, value.Int(o.X))
+		if !good {
+			fatal("run-time map literal failed")
+		}
+		e.add(lit, map[string]int{o.Key: o.X}, "mlitrt", nil)
+		ops = append(ops, fmt.Sprintf("MLit [(%s, %s%%Z)]", coqKey(o.Key), c09CoqZ(o.X)))
+		m, good := e.evalMap("a+b", []string{"a", "b"}, e.ms[o.A], lit)
+		if !good {
+			e.failNow("error-behaviour:merge", "merge with a fresh key fails")
+			return ops
+		}
+		c := copyMap(e.pure[o.A])
+		c[o.Key] = o.X
+		e.add(m, c, "merge", nil)
+		ops = append(ops, fmt.Sprintf("MMerge %d %d", o.A, len(e.ms)-2))
 	case "merge":
 		if !ok(o.A) || !ok(o.B) {
 			return nil
@@ -871,9 +1111,55 @@ func (e *c9MapExec) apply(o c9Op) []string {
 			ops = append(ops, fmt.Sprintf("MEval %d", o.A))
 		}
 		if !good {
-			fatal("%s failed", o.K)
+			// e.g. v+d on the bool entry of a minMax result: an error, no new handle (nothing in the model either)
+			if count := e.count; count {
+				e.sum.Count("map_ops_failed", o.K)
+			}
+			return nil
 		}
 		e.add(m, c, o.K, nil)
+	case "mminmax":
+		// a map built by a library builder with spare capacity in its ListMap: [..].minMax(e->e)
+		if len(o.Xs) == 0 {
+			return nil
+		}
+		m, good := e.evalMap("l.minMax(e->e)", []string{"l"}, intList(o.Xs))
+		if !good {
+			fatal("minMax failed")
+		}
+		srt := sortedInts(o.Xs)
+		c := map[string]int{"min": srt[0], "max": srt[len(srt)-1], "minItem": srt[0], "maxItem": srt[len(srt)-1], "valid": 1}
+		var ents []string
+		for _, k := range []string{"min", "max", "minItem", "maxItem", "valid"} {
+			ents = append(ents, fmt.Sprintf("(%s, %s%%Z)", coqKey(k), c09CoqZ(c[k])))
+		}
+		e.add(m, c, o.K, nil)
+		ops = append(ops, "MLitN 3 "+CoqList(ents))
+	case "mobs":
+		// observer-style operations on maps: no handle may change, the model does nothing
+		if !ok(o.A) || !ok(o.B) {
+			return nil
+		}
+		ob, found := c9FindObserver(c9MapObservers, o.Ks)
+		if !found {
+			return nil
+		}
+		key := o.Key
+		if key == "" {
+			key = "a"
+		}
+		b := o.A
+		if ob.Binary {
+			b = o.B
+		}
+		_, err := evalExpr(ob.Exp, []string{"a", "b", "k", "d"}, e.ms[o.A], e.ms[b], value.String(key), value.Int(o.X))
+		if e.count {
+			e.sum.Count("map_observers", ob.Name)
+			if err != nil {
+				e.sum.Count("map_observer_errors", ob.Name)
+			}
+		}
+		ops = []string{}
 	default:
 		fatal("unknown map operation %q", o.K)
 	}
@@ -901,6 +1187,11 @@ func parseIntMap(s string) (map[string]int, bool) {
 			return nil, false
 		}
 		n, err := strconv.Atoi(kv[1])
+		if kv[1] == "true" {
+			n, err = 1, nil
+		} else if kv[1] == "false" {
+			n, err = 0, nil
+		}
 		if err != nil {
 			return nil, false
 		}
@@ -910,6 +1201,20 @@ func parseIntMap(s string) (map[string]int, bool) {
 		m[kv[0]] = n
 	}
 	return m, true
+}
+
+// map values as observed: ints, booleans as 0/1
+func c9MapVal(v value.Value) (int, bool) {
+	switch x := v.(type) {
+	case value.Int:
+		return int(x), true
+	case value.Bool:
+		if x {
+			return 1, true
+		}
+		return 0, true
+	}
+	return 0, false
 }
 
 func mapsEq(a, b map[string]int) bool {
@@ -954,7 +1259,7 @@ func c9RunMap(h c9Hist, sum *Summary, count bool) (*c9MapExec, string) {
 					gv, err := evalExpr("m.get(k)", []string{"m", "k"}, m, value.String(k))
 					if err != nil {
 						bad = fmt.Sprintf("get(%s) fails", k)
-					} else if iv, isInt := gv.(value.Int); !isInt || int(iv) != v {
+					} else if iv, isInt := c9MapVal(gv); !isInt || iv != v {
 						bad = fmt.Sprintf("get(%s) = %v", k, gv)
 					}
 				}
@@ -962,7 +1267,7 @@ func c9RunMap(h c9Hist, sum *Summary, count bool) (*c9MapExec, string) {
 				n := 0
 				m.Iter(func(k string, v value.Value) bool {
 					n++
-					if iv, isInt := v.(value.Int); !isInt || want[k] != int(iv) {
+					if iv, isInt := c9MapVal(v); !isInt || want[k] != iv {
 						bad = fmt.Sprintf("Iter yields %s:%v", k, v)
 					}
 					return true
@@ -973,6 +1278,9 @@ func c9RunMap(h c9Hist, sum *Summary, count bool) (*c9MapExec, string) {
 			}
 			if bad != "" {
 				sig := "map-changed-by:" + o.K
+				if o.K == "mobs" {
+					sig += ":" + o.Ks
+				}
 				what := fmt.Sprintf("map handle %d (created by %s) was bound to %v; after step %d (%s) %s", i, e.creator[i], want, si+1, o.String(), bad)
 				if i >= before {
 					sig = "map-wrong-at-creation:" + o.K
@@ -1061,6 +1369,19 @@ func (r *Rng) genListHist(maxOps int) c9Hist {
 			sizes = append(sizes, size)
 			handles++
 			_ = k
+		}
+		if r.Chance(0.2) {
+			// an observer: handles as operands of a built-in, result thrown away
+			if len(lits) > 0 && r.Chance(0.2) {
+				h.Ops = append(h.Ops, c9Op{K: "constcontains", A: lits[r.Pick(len(lits))], B: r.Pick(handles), N: 2 + r.Pick(2)})
+			} else {
+				ob := c9ListObservers[r.Pick(len(c9ListObservers))]
+				if r.Chance(0.25) {
+					ob = c9ListObservers[r.Pick(3)] // the `~` forms
+				}
+				h.Ops = append(h.Ops, c9Op{K: "obs", Key: ob.Name, A: a, B: r.Pick(handles), X: r.Pick(4)})
+			}
+			continue
 		}
 		switch k := r.Pick(100); {
 		case k < 30:
@@ -1178,6 +1499,11 @@ func (r *Rng) genMapHist(maxOps int) c9Hist {
 			handles++ // approximate: skipped when the first literal is empty
 			continue
 		}
+		if r.Chance(0.15) {
+			ob := c9MapObservers[r.Pick(len(c9MapObservers))]
+			h.Ops = append(h.Ops, c9Op{K: "mobs", Ks: ob.Name, A: a, B: r.Pick(handles), Key: key, X: r.c9Val()})
+			continue
+		}
 		switch k := r.Pick(100); {
 		case k < 30:
 			h.Ops = append(h.Ops, c9Op{K: "put", A: a, Key: key, X: r.c9Val()})
@@ -1210,6 +1536,87 @@ func (r *Rng) genMapHist(maxOps int) c9Hist {
 	return h
 }
 
+// The shape in which sharing of a ListMap backing array would show: a parent of every size 1..9 built by a
+// chain of merges / puts (or by accept that dropped an entry, or by the library builder minMax), then two
+// or three derivations (merge, put, replace) branching from that SAME parent; every handle is observed
+// after every step, so the first sibling is looked at again after the second was derived.
+func (r *Rng) genMapBranchHist() c9Hist {
+	h := c9Hist{Kind: "map"}
+	perm := r.Perm(26)
+	next := 0
+	fresh := func() string { k := string(rune('a' + perm[next%26])); next++; return k }
+	handles := 0
+	parent := 0
+	var pkeys []string // keys of the parent
+	switch k := r.Pick(10); {
+	case k < 2:
+		h.Ops = append(h.Ops, c9Op{K: "mminmax", Xs: r.c9Ints(1 + r.Pick(4))})
+		handles = 1
+	case k < 5:
+		// accept that drops entries: a builder with spare capacity
+		m := 2 + r.Pick(4)
+		ks := ""
+		xs := make([]int, m)
+		for i := 0; i < m; i++ {
+			ks += fresh()
+			xs[i] = i
+		}
+		cut := 1 + r.Pick(m-1)
+		h.Ops = append(h.Ops, c9Op{K: "mlit", Ks: ks, Xs: xs}, c9Op{K: "maccept", A: 0, X: cut})
+		for i := 0; i < cut; i++ {
+			pkeys = append(pkeys, ks[i:i+1])
+		}
+		handles, parent = 2, 1
+	default:
+		m := r.Pick(4)
+		ks := ""
+		for i := 0; i < m; i++ {
+			ks += fresh()
+			pkeys = append(pkeys, ks[i:i+1])
+		}
+		kind := "mlit"
+		if r.Chance(0.5) {
+			kind = "mlitrt"
+		}
+		h.Ops = append(h.Ops, c9Op{K: kind, Ks: ks, Xs: r.c9Ints(m)})
+		handles = 1
+	}
+	derive := func(from int, allowReplace bool) int {
+		switch k := r.Pick(10); {
+		case k < 6:
+			h.Ops = append(h.Ops, c9Op{K: "mergelit", A: from, Key: fresh(), X: r.c9Val()})
+			handles += 2
+		case k < 9 || !allowReplace || len(pkeys) == 0:
+			h.Ops = append(h.Ops, c9Op{K: "put", A: from, Key: fresh(), X: r.c9Val()})
+			handles++
+		default:
+			h.Ops = append(h.Ops, c9Op{K: "replace", A: from, Key: pkeys[r.Pick(len(pkeys))], X: r.c9Val()})
+			handles++
+		}
+		return handles - 1
+	}
+	// the chain that builds the parent
+	for i, n := 0, r.Pick(5); i < n; i++ {
+		key := h.Ops
+		_ = key
+		before := len(h.Ops)
+		parent = derive(parent, false)
+		pkeys = append(pkeys, h.Ops[before].Key)
+	}
+	// the branching
+	for i, n := 0, 2+r.Pick(2); i < n; i++ {
+		child := derive(parent, true)
+		if r.Chance(0.3) {
+			derive(child, false) // and a grandchild
+		}
+		if r.Chance(0.2) {
+			ob := c9MapObservers[r.Pick(len(c9MapObservers))]
+			h.Ops = append(h.Ops, c9Op{K: "mobs", Ks: ob.Name, A: parent, B: child, Key: "a", X: r.c9Val()})
+		}
+	}
+	return h
+}
+
 // known-bad and boundary histories, run first
 func c9Corpus() []c9Hist {
 	L := func(ops ...c9Op) c9Hist { return c9Hist{Kind: "list", Ops: ops} }
@@ -1234,6 +1641,34 @@ func c9Corpus() []c9Hist {
 		M(c9Op{K: "mlit", Ks: "ab", Xs: []int{1, 2}}, c9Op{K: "constput", A: 0, Key: "c", X: 3}, c9Op{K: "constput", A: 0, Key: "c", X: 4}, c9Op{K: "put", A: 1, Key: "d", X: 5}, c9Op{K: "put", A: 1, Key: "d", X: 6}),
 		M(c9Op{K: "mlitrt", Ks: "ab", Xs: []int{1, 2}}, c9Op{K: "replace", A: 0, Key: "a", X: 7}, c9Op{K: "replace", A: 0, Key: "a", X: 8}, c9Op{K: "merge", A: 1, B: 2}, c9Op{K: "mapv", A: 1, X: 1}, c9Op{K: "meval", A: 1}, c9Op{K: "maccept", A: 0, X: 2}),
 	}
+	// observers: a built-in that reads a handle must not write to it.  Witness of a seeded defect
+	// (containsAllItems removing found items from the search list's own slice): after `s ~ h` s changed
+	hs = append(hs,
+		L(c9Op{K: "lit", Xs: []int{1, 2, 3}}, c9Op{K: "litrt", Xs: []int{3, 1, 2, 5}}, c9Op{K: "obs", Key: "~ list-in-list", A: 0, B: 1},
+			c9Op{K: "obs", Key: "~ list-in-list", A: 1, B: 0}, c9Op{K: "obs", Key: "~ list-in-itself", A: 1, B: 1}),
+		L(c9Op{K: "litrt", Xs: []int{1, 2, 3, 4}}, c9Op{K: "force", A: 0}, c9Op{K: "litrt", Xs: []int{4, 3, 2, 1}}, c9Op{K: "obs", Key: "~ list-in-list", A: 0, B: 1}),
+		// the constant list of ONE generated function as left operand of `~`, evaluated three times
+		L(c9Op{K: "litapp", Xs: []int{1, 2, 3}}, c9Op{K: "litrt", Xs: []int{3, 1, 2, 5}}, c9Op{K: "constcontains", A: 0, B: 1, N: 2},
+			c9Op{K: "constcontains", A: 0, B: 1, N: 2}, c9Op{K: "constcontains", A: 0, B: 1, N: 2}, c9Op{K: "constcontains", A: 0, B: 1, N: 3}),
+		// ListMap backing array shared between siblings (seeded defect: a "flat merge" that appends to the left
+		// operand's ListMap): parents of 3 entries built by merges, by accept that dropped entries, by minMax
+		M(c9Op{K: "mlit", Ks: "a", Xs: []int{1}}, c9Op{K: "mergelit", A: 0, Key: "b", X: 2}, c9Op{K: "mergelit", A: 2, Key: "c", X: 3},
+			c9Op{K: "mergelit", A: 4, Key: "x", X: 1}, c9Op{K: "mergelit", A: 4, Key: "y", X: 2}, c9Op{K: "put", A: 4, Key: "z", X: 3}),
+		M(c9Op{K: "mlit", Ks: "abcd", Xs: []int{1, 2, 8, 9}}, c9Op{K: "maccept", A: 0, X: 5}, c9Op{K: "mergelit", A: 1, Key: "x", X: 1},
+			c9Op{K: "mergelit", A: 1, Key: "y", X: 2}, c9Op{K: "put", A: 1, Key: "z", X: 3}),
+		M(c9Op{K: "mminmax", Xs: []int{1, 5, 3}}, c9Op{K: "mergelit", A: 0, Key: "x", X: 1}, c9Op{K: "mergelit", A: 0, Key: "y", X: 2},
+			c9Op{K: "put", A: 0, Key: "z", X: 3}, c9Op{K: "mobs", Ks: "combine", A: 0, B: 2}),
+	)
+	// every observer once on a materialised, on a lazy and on a constant list
+	allObs := L(c9Op{K: "litapp", Xs: []int{3, 1, 2}}, c9Op{K: "numbers", N: 4}, c9Op{K: "litrt", Xs: []int{2, 2, 1}}, c9Op{K: "append", A: 2, X: 5})
+	for i, ob := range c9ListObservers {
+		allObs.Ops = append(allObs.Ops, c9Op{K: "obs", Key: ob.Name, A: i % 4, B: (i + 1) % 4, X: 1})
+	}
+	allMapObs := M(c9Op{K: "mlit", Ks: "ab", Xs: []int{1, 2}}, c9Op{K: "mlitrt", Ks: "cd", Xs: []int{3, 4}}, c9Op{K: "mergelit", A: 0, Key: "e", X: 5})
+	for i, ob := range c9MapObservers {
+		allMapObs.Ops = append(allMapObs.Ops, c9Op{K: "mobs", Ks: ob.Name, A: i % 4, B: (i + 1) % 4, Key: "a", X: 1})
+	}
+	hs = append(hs, allObs, allMapObs)
 	// a replace chain long enough for createFlat
 	deep := M(c9Op{K: "mlit", Ks: "abc", Xs: []int{1, 2, 3}})
 	for i := 0; i < 13; i++ {
@@ -1320,7 +1755,9 @@ func c9Shrink(h c9Hist, sig string) c9Hist {
 		}
 		h = c
 	}
-	usesB := func(k string) bool { return k == "concat" || k == "merge" }
+	usesB := func(k string) bool {
+		return k == "concat" || k == "merge" || k == "obs" || k == "constcontains" || k == "mobs"
+	}
 	for changed := true; changed; {
 		changed = false
 		_, ranges := run(h)
@@ -1337,7 +1774,7 @@ func c9Shrink(h c9Hist, sig string) c9Hist {
 					if usesB(o.K) {
 						refs = append(refs, &o.B)
 					}
-					if o.K == "lit" || o.K == "litapp" || o.K == "litrt" || o.K == "numbers" || o.K == "mlit" || o.K == "mlitrt" {
+					if o.K == "lit" || o.K == "litapp" || o.K == "litrt" || o.K == "numbers" || o.K == "mlit" || o.K == "mlitrt" || o.K == "mminmax" {
 						refs = nil
 					}
 					for _, r := range refs {
@@ -1375,7 +1812,7 @@ func cmdC09(seed int64, tier, outDir string) {
 	}
 	r := NewRng(seed)
 	sum := NewSummary("C09", seed, tier)
-	sum.Rule = "histories of <= 12 (thorough: 20) operations over a pool of handles, executed through the expression language, every live handle observed after every step (string(), size(), [i], =, first(); maps: string(), size(), get(k), Iter); non-trivial = list history in which one parent has >= 2 derivations of which >= 1 is an append onto spare capacity (in place), or map history with >= 3 handles; distinct by the operation sequence"
+	sum.Rule = "histories of <= 12 (thorough: 20) operations over a pool of handles, executed through the expression language, every live handle observed after every step (string(), size(), [i], =, first(); maps: string(), size(), get(k), Iter); operations are derivations (append, set, +, put, merge, ...) and OBSERVERS (an existing handle as operand of a built-in whose result is thrown away: every list/map method and operator of value.New() except append, taken from the table in harness/c09.go and cross-checked against the verif hook VerifMethodArities; plus `~` with the shared constant list of one generated function as operand); non-trivial = list history in which one parent has >= 2 derivations of which >= 1 is an append onto spare capacity (in place), or map history with >= 3 handles; distinct by the operation sequence"
 	cw := NewCaseWriter(outDir, "From P2 Require Import Base.Prelude Heap.ListHeap Heap.MapHeap Run.C09Run.", "c09_case", "c09_id", "c09_im", "c09_is", map[string]int{"quick": 70, "thorough": 500}[tier])
 	if optReplay != "" {
 		var h c9Hist
@@ -1397,7 +1834,11 @@ func cmdC09(seed int64, tier, outDir string) {
 	for i := 0; i < n; i++ {
 		id++
 		if i%5 == 4 {
-			c9Case(r.genMapHist(maxOps), id, sum, cw)
+			if i%10 == 9 {
+				c9Case(r.genMapHist(maxOps), id, sum, cw)
+			} else {
+				c9Case(r.genMapBranchHist(), id, sum, cw)
+			}
 		} else {
 			c9Case(r.genListHist(maxOps), id, sum, cw)
 		}
@@ -1433,5 +1874,6 @@ func cmdC09(seed int64, tier, outDir string) {
 		}
 	}
 	sum.Extra["listMap_API_facts"] = c9ListMapAPIFacts()
+	sum.Extra["methods_of_value.New()_not_exercised_by_any_operation"] = c9UncoveredMethods()
 	sum.Write(outDir)
 }
